@@ -30,3 +30,8 @@ claim("C12", "model_checking", E2,
 claim("C13", "model_checking", E2,
       "Fault site (model construction, init_position, all inits failing, unrecoverable/recoverable density error at EVERY evaluation index of a run, storage record/finalize/flush/inspect/init failures) x faulty chain x chains/cores x terminal call x script, every schedule up to the bound: the error surfaces as Err through wait_timeout/abort, never a panic in the caller, hang or success; recoverable errors never end a chain.",
       E2_NOTE, "fault-site enumeration x stateless preemption-bounded DFS over thread schedules", "4/C13")
+
+claim("C06", "exploration", E1,
+      "Configuration sweep through the public API: num_tune 0..=60 and {100,150,400[,1000,2000]} x six presets x step-size methods x jitter x window options; per draw: tuning flag, transformation index frozen from the start of the final window, constant step_size_bar and jitter band after warmup. The warmup-schedule automaton itself (all good/rejected/divergent histories) is explored under C09.",
+      "Trusted: the start of the final window is re-derived from the documented options (num_tune - floor(step_size_window*num_tune); flow: floor(num_tune*(1-step_size_window))); ChaCha8 seeds are fixed configuration values; one 3-d Gaussian target.",
+      "bounded-exhaustive configuration enumeration (every num_tune 0..60 x presets x methods) on the real chains", "4/C06")
